@@ -245,6 +245,22 @@ def run_one(mod, ctx, watchdog):
                 result['status'] = 'inconclusive'
                 result['detail'] = 'harness error: ' + tb[-3000:]
 
+    if getattr(mod, 'MAIN_THREAD', False):
+        # the check needs signals (CPU-time budgets around single inputs):
+        # run it in the main thread; the watchdog is an alarm
+        import signal
+
+        def on_alarm(signum, frame):
+            raise Inconclusive('watchdog (%ss) fired' % watchdog)
+        old = signal.signal(signal.SIGALRM, on_alarm)
+        signal.alarm(int(watchdog))
+        try:
+            target()
+        finally:
+            signal.alarm(0)
+            signal.signal(signal.SIGALRM, old)
+        return _partial(ctx, result.get('status', 'inconclusive'),
+                        result.get('detail'))
     th = threading.Thread(target=target, daemon=True, name='check-main')
     th.start()
     th.join(watchdog)
